@@ -56,6 +56,7 @@ pub enum K {
     Upgrade,
     WeakClone,
     WeakDrop,
+    WeakRaw,
     StoreWeak,
     TryUnwrap,
     MakeMut,
@@ -72,7 +73,7 @@ pub enum K {
 pub const NK: usize = K::_N as usize;
 const ALLK: [K; NK] = [
     K::New, K::Clone, K::Drop, K::Store, K::Take, K::Adopt, K::Unadopt, K::SelfSame, K::UnSelfSame, K::Downgrade, K::Upgrade, K::WeakClone,
-    K::WeakDrop, K::StoreWeak, K::TryUnwrap, K::MakeMut, K::SlotMakeMut, K::GetMut, K::IntoRaw, K::FromRaw, K::IncStrong, K::DecStrong, K::DropValue, K::Noise,
+    K::WeakDrop, K::WeakRaw, K::StoreWeak, K::TryUnwrap, K::MakeMut, K::SlotMakeMut, K::GetMut, K::IntoRaw, K::FromRaw, K::IncStrong, K::DecStrong, K::DropValue, K::Noise,
 ];
 
 #[derive(Clone, Debug)]
@@ -97,6 +98,9 @@ pub struct Knobs {
     /// prefer consuming calls on objects that take part in adoptions
     pub consuming_on_adopted: bool,
     pub drain_consuming: bool,
+    /// share (of 8) of the objects that are built in two phases (`new_uninit`, adoptions
+    /// on the `MaybeUninit`-typed handles, `assume_init` later)
+    pub uninit_p: u32,
     /// out of 8: a destructor downgrades each of its stored handles and the program keeps the Weak
     pub dtor_downgrade_p: u32,
 }
@@ -402,6 +406,7 @@ pub fn next_op(rng: &mut Rng, kn: &Knobs, g: &mut GenState) -> Option<Op> {
             K::Upgrade => rng.pick(&v.ws).map(|w| Op::Upgrade { w, d: g.h() }),
             K::WeakClone => rng.pick(&v.ws).map(|w| Op::WeakClone { w, d: g.w() }),
             K::WeakDrop => rng.pick(&v.ws).map(|w| Op::WeakDrop { w }),
+            K::WeakRaw => rng.pick(&v.ws).map(|w| Op::WeakRaw { w }),
             K::StoreWeak => match (rng.pick(&v.ws), rng.pick(hs)) {
                 (Some(w), Some((owner, _))) => Some(Op::StoreWeak { w, owner }),
                 _ => None,
@@ -481,9 +486,49 @@ pub fn next_drain(rng: &mut Rng, kn: &Knobs, g: &mut GenState) -> Option<Op> {
         return None;
     }
     let i = rng.below(cands.len());
-    Some(cands.swap_remove(i))
+    let op = cands.swap_remove(i);
+    if let Op::WeakDrop { w } = op {
+        // a Weak to an object that may have died by now, round-tripped through the raw API
+        if kn.weights[K::WeakRaw as usize] > 0 && rng.chance(1, 4) {
+            return Some(Op::WeakRaw { w });
+        }
+    }
+    Some(op)
 }
 
 pub fn set_w(kn: &mut Knobs, k: K, w: u32) {
     kn.weights[k as usize] = w;
+}
+
+/// Two-phase construction: rewrite a generated call for histories with `uninit_p > 0`.
+/// `New` becomes `NewU` for a share of the objects; a recorded store whose owner and
+/// target are both still uninit-typed becomes an unrecorded store followed by an adoption
+/// through the `MaybeUninit`-typed handles (so that records exist before `assume_init`).
+pub fn two_phase(op: Op, kn: &Knobs, rng: &mut Rng) -> Vec<Op> {
+    if kn.uninit_p == 0 {
+        return vec![op];
+    }
+    match op {
+        Op::New { o, h } if rng.chance(kn.uninit_p, 8) => vec![Op::NewU { o, h }],
+        Op::Store { h, owner, adopt: true } => {
+            let t = m(|m| {
+                let obj = *m.ph.get(&h)?;
+                m.ph.iter().find(|&(&k, &v)| v == obj && k != h && k != owner).map(|(&k, _)| k)
+            });
+            let both = t.map_or(false, |t| crate::exec::w(|w| w.uninit.contains(&owner) && w.uninit.contains(&t)));
+            if both && rng.chance(3, 4) {
+                vec![Op::Store { h, owner, adopt: false }, Op::Adopt { owner, target: t.unwrap() }]
+            } else {
+                vec![op]
+            }
+        }
+        _ if rng.chance(1, 24) => {
+            let hs: Vec<Id> = crate::exec::w(|w| w.uninit.iter().copied().collect());
+            match rng.pick(&hs) {
+                Some(h) => vec![Op::AssumeInit { h }, op],
+                None => vec![op],
+            }
+        }
+        _ => vec![op],
+    }
 }
